@@ -144,7 +144,19 @@ TrCore ==
   /\ IF e.out \in {"ok", "err"} THEN Good
      ELSE Bad(IF e.f \in {"optimise", "validate"} THEN "accepted_panic" ELSE "load_panic", [out |-> e.out, f |-> e.f])
 
-TrNext == TrIdent \/ TrFload \/ TrCore \/ TrCase \/ TrSkip \/ TrLoad \/ TrLoad2 \/ TrOpt \/ TrMatch \/ TrTri \/ TrValidate \/ TrSer \/ TrReload
+(* Object::find / Document::find observed directly (C10): the value returned for a well-formed   *)
+(* key is the value reached by descent; objects are compared with their members sorted by key.  *)
+TrFound ==
+  /\ IsEv("found") /\ Adv /\ UNCHANGED rvars
+  /\ LET key == cur.keys[e.k + 1]
+         want == Find(cur.doc, key) IN
+     IF e.out = "panic" THEN Bad("find_panic", [key |-> key, repr |-> e.repr])
+     ELSE IF ~WellFormedPath(key) THEN Good                      \* totality only
+     ELSE IF (e.out = "none") # IsNone(want) THEN Bad("find_value", [key |-> key, repr |-> e.repr, out |-> e.out, want |-> want])
+     ELSE IF e.out = "some" /\ e.v # want THEN Bad("find_value", [key |-> key, repr |-> e.repr, got |-> e.v, want |-> want])
+     ELSE Good
+
+TrNext == TrFound \/ TrIdent \/ TrFload \/ TrCore \/ TrCase \/ TrSkip \/ TrLoad \/ TrLoad2 \/ TrOpt \/ TrMatch \/ TrTri \/ TrValidate \/ TrSer \/ TrReload
 
 TrSpec == TrInit /\ [][TrNext]_tvars
 
